@@ -175,6 +175,7 @@ Hypothesis Htries : forall k t, nth_error tries k = Some t -> forallb wf_prefix 
 Hypothesis Hlpm : forall k t, nth_error tries k = Some t ->
   km_lpm km (ring_slot MaxMatchSetLen alloc (N.of_nat k)) = Some (map key_of_prefix t).
 Hypothesis Hdom : km_domain km (bytes_be 16 (p_dst pk)) = dom_entry bm.
+Hypothesis Hlan : wan = true \/ nth 0 (p_pname pk) 0 = 0.   (* a LAN probe carries no process name *)
 Hypothesis Hbm : match bm with Some w => List.length w = 32%nat /\ (forall x, In x w -> x < 4294967296) | None => True end.
 
 Lemma pk_facts :
@@ -216,18 +217,13 @@ Proof.
   cbn [setf c_state]. rewrite Hs. apply set_good.
 Qed.
 
-(* the two process-name guards agree on this match-set *)
-Definition pname_guard (m : mset) : Prop :=
-  m_type m = MatchType_ProcessName ->
-  wan = negb (nth 0 (p_pname pk) 0 =? 0) \/ m_pname m <> p_pname pk.
-
 Lemma k_eval_agrees n m e c i must dns :
-  i < 1024 -> wf_mset n m = true -> n <= N.of_nat (List.length tries) -> decodes alloc e m -> pname_guard m ->
+  i < 1024 -> wf_mset n m = true -> n <= N.of_nat (List.length tries) -> decodes alloc e m ->
   c_state c = st_of false false must dns -> cache_ok c ->
   exists g c', eval_mset tries a bm i m = Ok g /\ k_eval km ka hs hd c i e = inl c' /\
                c_state c' = st_of g false must dns /\ cache_ok c'.
 Proof.
-  intros Hi Hwf Hn Hdec Hguard Hs Hc.
+  intros Hi Hwf Hn Hdec Hs Hc.
   destruct (wf_mset_facts _ _ Hwf) as (Ht & Ho & Hmk & Hps & Hpe & Hmask & Hpn & Hpb & Hd & Hl).
   destruct Hdec as (Dt & Dn & Dob & Dmu & Dmk & Dlpm & Dport & Dl4 & Dver & Dpn & Ddscp).
   destruct pk_facts as (Psrc & Pdst & Psp & Pdp & Ppn & Ppb & Pmac & Pdscp).
@@ -285,20 +281,22 @@ Proof.
   - (* ProcessName *)
     destruct (Dpn eq_refl) as [D0 D8]. rewrite D0, D8.
     eexists. eexists. split; [reflexivity|].
-    assert (E : negb (byte_at (ka_flag ka) 7 mod 256 =? 0) &&
+    assert (E : negb (byte_at (ka_flag ka) 7 mod 256 =? 0) && negb (byte_at (ka_flag ka) 2 mod 256 =? 0) &&
                 equal16 (le64 (m_pname m) 0) (le64 (m_pname m) 8)
                         (byte_at (ka_flag ka) 2 + 4294967296 * byte_at (ka_flag ka) 3)
                         (byte_at (ka_flag ka) 4 + 4294967296 * byte_at (ka_flag ka) 5)
                 = negb (nth 0 (a_pname a) 0 =? 0) && list_eqb (m_pname m) (a_pname a)).
-    { unfold ka, a. cbn [kargs_of ka_flag args_of_packet a_pname]. unfold byte_at at 1 2 3 4 5. cbn [nth].
+    { unfold ka, a. cbn [kargs_of ka_flag args_of_packet a_pname]. unfold byte_at at 1 2 3 4 5 6. cbn [nth].
       rewrite (list_eqb_16 _ _ Hpn Ppn Hpb Ppb). unfold equal16, le64. cbn [Nat.add].
       assert (W : negb (b2n wan mod 256 =? 0) = wan) by (destruct wan; reflexivity). rewrite W.
-      destruct (Hguard T) as [G|G].
+      assert (F0 : le32 (p_pname pk) 0 mod 256 = nth 0 (p_pname pk) 0).
+      { assert (B : forall k, byte_at (p_pname pk) k < 256).
+        { intros k. unfold byte_at. destruct (nth_in_or_default k (p_pname pk) 0) as [Hi'|Hd']; [now apply Ppb | rewrite Hd'; lia]. }
+        unfold le32. pose proof (B 0%nat). pose proof (B 1%nat). pose proof (B 2%nat). pose proof (B 3%nat).
+        change (nth 0 (p_pname pk) 0) with (byte_at (p_pname pk) 0). cbn [Nat.add]. lia. }
+      rewrite F0. destruct Hlan as [G|G].
       - rewrite G. reflexivity.
-      - assert (F : list_eqb (m_pname m) (p_pname pk) = false).
-        { destruct (list_eqb (m_pname m) (p_pname pk)) eqn:Eq; [|reflexivity]. apply list_eqb_eq in Eq. contradiction. }
-        rewrite (list_eqb_16 _ _ Hpn Ppn Hpb Ppb) in F. unfold le64 in F. cbn [Nat.add] in F. rewrite F.
-        now rewrite !andb_false_r. }
+      - rewrite G. cbn [N.eqb negb andb]. now rewrite andb_false_r. }
     rewrite E. split; [reflexivity|]. now apply good_step.
   - (* Dscp *)
     rewrite (Ddscp eq_refl). eexists. eexists. split; [reflexivity|].
@@ -330,18 +328,16 @@ Qed.
 
 Lemma k_loop_scan n dns : forall ms es i good bad must c,
   Forall2 (decodes alloc) es ms -> forallb (wf_mset n) ms = true -> n <= N.of_nat (List.length tries) ->
-  Forall pname_guard ms ->
   i + N.of_nat (List.length ms) <= 1024 ->
   (forall k e, nth_error es k = Some e -> nth (N.to_nat (i + N.of_nat k)) (km_routing km) (zeros 24) = e) ->
   c_state c = st_of good bad must dns -> cache_ok c ->
   loop_answer (k_loop km ka hs hd (List.length ms) i c) =
   expected_d dns (user_answer (match_loop tries a bm ms i good bad must)).
 Proof.
-  induction ms as [|m ms IH]; intros es i good bad must c HF Hwf Hn Hg Hlen Hent Hs Hc.
+  induction ms as [|m ms IH]; intros es i good bad must c HF Hwf Hn Hlen Hent Hs Hc.
   - reflexivity.
   - inversion HF as [|e m' es' ms' Hdec HF']; subst.
     cbn [forallb] in Hwf. apply andb_true_iff in Hwf as [Hwm Hwf'].
-    inversion Hg as [|? ? Hgm Hg']; subst.
     cbn [List.length] in Hlen |- *. cbn [k_loop]. rewrite match_loop_step.
     assert (Hi : i < 1024) by lia.
     unfold k_cb. destruct (N.leb_spec K_MAX_MATCH_SET_LEN i) as [Hbad|_]; [change K_MAX_MATCH_SET_LEN with 1024 in Hbad; lia|].
@@ -373,7 +369,7 @@ Proof.
     destruct (bad || good) eqn:BG.
     + (* skip the evaluation *) apply Fin; assumption.
     + apply orb_false_iff in BG as [-> ->].
-      destruct (k_eval_agrees n m e c i must dns Hi Hwm Hn Hdec Hgm Hs Hc) as (g & c' & Eg & Ek & Sc' & Cc').
+      destruct (k_eval_agrees n m e c i must dns Hi Hwm Hn Hdec Hs Hc) as (g & c' & Eg & Ek & Sc' & Cc').
       rewrite Eg, Ek. apply Fin; assumption.
 Qed.
 
@@ -406,17 +402,6 @@ Lemma be16_hdr s d : s < 65536 -> d < 65536 ->
   be16 (be16_bytes s ++ be16_bytes d) 0 = s /\ be16 (be16_bytes s ++ be16_bytes d) 2 = d.
 Proof. intros Hs Hd. unfold be16, byte_at, be16_bytes. cbn [nth app Nat.add]. lia. Qed.
 
-Lemma pname_guard_of ms pk wan : forallb (wf_mset 0) ms = true \/ True ->
-  (forall m, In m ms -> List.length (m_pname m) = 16%nat) ->
-  pname_guard_ok ms pk wan = true -> Forall (pname_guard pk wan) ms.
-Proof.
-  intros _ Hlen H. apply Forall_forall. intros m Hin Ht.
-  unfold pname_guard_ok in H. apply orb_true_iff in H as [H|H].
-  - left. now apply eqb_prop in H.
-  - right. rewrite forallb_forall in H. specialize (H m Hin). rewrite Ht, N.eqb_refl in H. cbn [negb orb] in H.
-    rewrite (nth16_id _ (Hlen m Hin)) in H. intros E. rewrite E, list_eqb_refl in H. discriminate.
-Qed.
-
 Lemma decode_route_ret r :
   decode_word (match r with Some (KWord w) => KWord w | Some (KErrno _) => KErrno K_EPERM | None => KErrno K_EPERM end)
   = loop_answer r.
@@ -431,20 +416,24 @@ Proof.
   split; [exact H1|]. intros x Hx. specialize (H2 x Hx). change (2 ^ 32) with 4294967296 in H2. lia.
 Qed.
 
-Theorem kscan_scan_partial_proof :
+Theorem kscan_scan_proof :
   forall (prev : kmaps) (ms : list mset) (tries : list (list prefix128)) (alloc : N) (dm : string -> list N)
          (pk : packet) (wan : bool) (km : kmaps),
     forallb (wf_mset (N.of_nat (List.length tries))) ms = true ->
     forallb (forallb wf_prefix) tries = true ->
-    wf_packet pk = true ->
+    probe_ok pk wan = true ->
     bitmap_ok (dm (p_domain pk)) = true ->
-    pname_guard_ok ms pk wan = true ->
     install prev ms tries alloc = Ok km ->
     let bm := if String.eqb (p_domain pk) "" then None else Some (dm (p_domain pk)) in
     kernel_decides prev ms tries alloc (dom_entry bm) pk wan
     = Ok (expected (p_dport pk) (user_answer (match_sets {| mt_sets := ms; mt_tries := tries |} dm (args_of_packet pk)))).
 Proof.
-  intros prev ms tries alloc dm pk wan km Hwf Hpx Hpk Hbmok Hguard Hinst bm.
+  intros prev ms tries alloc dm pk wan km Hwf Hpx Hprobe Hbmok Hinst bm.
+  unfold probe_ok in Hprobe. apply andb_true_iff in Hprobe as [Hpk Hlan0].
+  assert (Hlan : wan = true \/ nth 0 (p_pname pk) 0 = 0).
+  { destruct wan; [now left|right]. cbn [orb] in Hlan0. rewrite forallb_forall in Hlan0.
+    destruct (nth_in_or_default 0 (p_pname pk) 0) as [Hi|Hd]; [|exact Hd].
+    specialize (Hlan0 _ Hi). now apply N.eqb_eq in Hlan0. }
   unfold kernel_decides. rewrite Hinst. f_equal.
   destruct (install_facts _ _ _ _ _ Hinst Hwf) as (Hr & Hmeta & Hl & _ & Hct & Hcm & Hne).
   set (km' := {| km_routing := km_routing km; km_meta := km_meta km; km_lpm := km_lpm km;
@@ -468,9 +457,6 @@ Proof.
                  then K_ROUTE_STATE_DNS_QUERY else 0) = st_of false false false (p_dport pk =? 53)).
   { unfold byte_at. cbn [nth]. destruct (p_l4 pk), (p_dport pk =? 53); reflexivity. }
   rewrite St0. rewrite decode_route_ret.
-  assert (Hlen16 : forall m, In m ms -> List.length (m_pname m) = 16%nat).
-  { intros m Hin. rewrite forallb_forall in Hwf. specialize (Hwf m Hin). now destruct (wf_mset_facts _ _ Hwf) as (_ & _ & _ & _ & _ & _ & L & _). }
-  pose proof (pname_guard_of ms pk wan (or_intror I) Hlen16 Hguard) as HG.
   assert (Hbm : match bm with Some w => List.length w = 32%nat /\ (forall x, In x w -> x < 4294967296) | None => True end).
   { subst bm. destruct (String.eqb (p_domain pk) ""); [exact I|]. now apply bitmap_ok_facts. }
   pose proof (k_loop_scan tries alloc km' pk wan bm Hpk) as L.
@@ -482,7 +468,7 @@ Proof.
   specialize (L Hlpm').
   assert (Hdom' : km_domain km' (bytes_be 16 (p_dst pk)) = dom_entry bm).
   { subst km'. cbn [km_domain]. now rewrite list_eqb_refl. }
-  specialize (L Hdom' Hbm (N.of_nat (List.length tries)) (p_dport pk =? 53) ms (map (kentry alloc) ms) 0 false false false).
+  specialize (L Hdom' Hlan Hbm (N.of_nat (List.length tries)) (p_dport pk =? 53) ms (map (kentry alloc) ms) 0 false false false).
   rewrite L.
   - rewrite expected_d_dport. f_equal. f_equal. unfold match_sets. cbn [mt_sets mt_tries args_of_packet a_domain].
     destruct ms as [|m0 ms0]; [contradiction|]. reflexivity.
@@ -494,7 +480,6 @@ Proof.
       * apply IH. cbn [forallb] in H2. now apply andb_true_iff in H2 as [_ H2].
   - exact Hwf.
   - apply N.le_refl.
-  - exact HG.
   - lia.
   - intros k e Hk. rewrite N.add_0_l, Nat2N.id. change (km_routing km') with (km_routing km). rewrite Hr.
     assert (Hlt : (k < List.length (map (kentry alloc) ms))%nat) by (apply nth_error_Some; congruence).
@@ -504,49 +489,58 @@ Proof.
 Qed.
 
 (* ---------------------------------------------------------------------------------------------- *)
-(* the full statement (no process-name hypothesis) is false                                         *)
+(* the side condition on probes matters: a LAN probe that carried a process name would be decided     *)
+(* differently (the kernel compares names only on the WAN path)                                       *)
 (* ---------------------------------------------------------------------------------------------- *)
 
-Definition kscan_scan_statement (with_guard : bool) : Prop :=
+Definition kscan_scan_statement (lan_has_no_name : bool) : Prop :=
   forall (prev : kmaps) (ms : list mset) (tries : list (list prefix128)) (alloc : N) (dm : string -> list N)
          (pk : packet) (wan : bool) (km : kmaps),
     forallb (wf_mset (N.of_nat (List.length tries))) ms = true ->
     forallb (forallb wf_prefix) tries = true ->
-    wf_packet pk = true ->
+    (if lan_has_no_name then probe_ok pk wan = true else wf_packet pk = true) ->
     bitmap_ok (dm (p_domain pk)) = true ->
-    (if with_guard then pname_guard_ok ms pk wan = true else True) ->
     install prev ms tries alloc = Ok km ->
     let bm := if String.eqb (p_domain pk) "" then None else Some (dm (p_domain pk)) in
     kernel_decides prev ms tries alloc (dom_entry bm) pk wan
     = Ok (expected (p_dport pk) (user_answer (match_sets {| mt_sets := ms; mt_tries := tries |} dm (args_of_packet pk)))).
 
-(* pname('') -> block; fallback: direct     and a WAN packet of a socket whose process is unknown *)
-Definition f11_msets : list mset :=
+Definition curl16 : list N := [99; 117; 114; 108] ++ repeat 0 12.
+
+(* pname(X) -> block; fallback: direct *)
+Definition pn_msets (name : list N) : list mset :=
   [ {| m_type := MatchType_ProcessName; m_not := false; m_out := 1; m_mark := 0; m_must := false; m_lpm := 0; m_ps := 0; m_pe := 0;
-       m_mask := 0; m_pname := repeat 0 16; m_dscp := 0 |};
+       m_mask := 0; m_pname := name; m_dscp := 0 |};
     {| m_type := MatchType_Fallback; m_not := false; m_out := 0; m_mark := 0; m_must := false; m_lpm := 0; m_ps := 0; m_pe := 0;
        m_mask := 0; m_pname := repeat 0 16; m_dscp := 0 |} ].
-Definition f11_packet : packet :=
+Definition pn_packet (name : list N) : packet :=
   {| p_src := 0xffff0a000001; p_dst := 0xffff01020304; p_sport := 40000; p_dport := 443; p_l4 := TCP; p_ipver := V4;
-     p_domain := ""; p_regex_hits := []; p_pname := repeat 0 16; p_mac := 0; p_dscp := 0 |}.
+     p_domain := ""; p_regex_hits := []; p_pname := name; p_mac := 0; p_dscp := 0 |}.
 
-Lemma kscan_scan_refuted_proof : ~ kscan_scan_statement false.
+Lemma kscan_scan_unrestricted_refuted_proof : ~ kscan_scan_statement false.
 Proof.
   intros H.
-  specialize (H empty_kmaps f11_msets [] 0 (fun _ => repeat 0 32) f11_packet true).
-  destruct (install empty_kmaps f11_msets [] 0) as [km|e] eqn:E; [|vm_compute in E; discriminate].
-  specialize (H km eq_refl eq_refl eq_refl eq_refl I eq_refl).
+  specialize (H empty_kmaps (pn_msets curl16) [] 0 (fun _ => repeat 0 32) (pn_packet curl16) false).
+  destruct (install empty_kmaps (pn_msets curl16) [] 0) as [km|e] eqn:E; [|vm_compute in E; discriminate].
+  specialize (H km eq_refl eq_refl eq_refl eq_refl eq_refl).
   vm_compute in H. discriminate.
 Qed.
 
-Lemma kscan_scan_partial_statement_proof : kscan_scan_statement true.
-Proof. exact kscan_scan_partial_proof. Qed.
+Lemma kscan_scan_statement_proof : kscan_scan_statement true.
+Proof. exact kscan_scan_proof. Qed.
 
-(* what the two sides answer on the witness *)
-Lemma f11_answers :
-  kernel_decides empty_kmaps f11_msets [] 0 None f11_packet true = Ok (Some (1, 0, false)) /\
-  match_sets {| mt_sets := f11_msets; mt_tries := [] |} (fun _ => []) (args_of_packet f11_packet) = Ok (0, 0, false) /\
-  pname_guard_ok f11_msets f11_packet true = false.
+(* the four combinations of is_wan and name on the two programs pname('') and pname(curl):
+   the empty name never matches (782ec41); a named WAN probe matches; only the LAN probe with a name - outside the
+   quantifier - is decided differently *)
+Lemma pname_combinations :
+  let user ms pk := match_sets {| mt_sets := ms; mt_tries := [] |} (fun _ => []) (args_of_packet pk) in
+  let z := repeat 0 16 in
+  kernel_decides empty_kmaps (pn_msets z) [] 0 None (pn_packet z) true = Ok (Some (0, 0, false)) /\ user (pn_msets z) (pn_packet z) = Ok (0, 0, false) /\
+  kernel_decides empty_kmaps (pn_msets z) [] 0 None (pn_packet z) false = Ok (Some (0, 0, false)) /\
+  kernel_decides empty_kmaps (pn_msets curl16) [] 0 None (pn_packet curl16) true = Ok (Some (1, 0, false)) /\ user (pn_msets curl16) (pn_packet curl16) = Ok (1, 0, false) /\
+  kernel_decides empty_kmaps (pn_msets curl16) [] 0 None (pn_packet z) true = Ok (Some (0, 0, false)) /\ user (pn_msets curl16) (pn_packet z) = Ok (0, 0, false) /\
+  kernel_decides empty_kmaps (pn_msets curl16) [] 0 None (pn_packet curl16) false = Ok (Some (0, 0, false)) /\
+  probe_ok (pn_packet curl16) false = false /\ probe_ok (pn_packet z) true = true /\ probe_ok (pn_packet z) false = true.
 Proof. vm_compute. repeat split. Qed.
 
 (* ---------------------------------------------------------------------------------------------- *)
